@@ -77,7 +77,7 @@ def apply (d : DS) (echo : String) (o : Op) : DS × List String :=
 def step (d : DS) : List String → DS × List String
   | [] => (d, [])
   | ["open", kind] =>
-    if kind = "pipe" ∨ kind = "tcp" ∨ kind = "ipc" then ({ opened := true }, ["opened"]) else (d, ["bad-op"])
+    if kind = "pipe" ∨ kind = "tcp" ∨ kind = "ipc" then ({ opened := true, s := { ipc := kind = "ipc" } }, ["opened"]) else (d, ["bad-op"])
   | "allocs" :: l =>
     match allSome (l.map String.toNat?) with
     | some a => ({ d with allocs := d.allocs ++ a }, [])
